@@ -148,6 +148,11 @@ def run_case(case):
         A = L.FFT(xshape) * L.Multiply(xshape, (0.3 + rng.random(n)).astype(dt))
         cplx = True
         dt = np.complex128
+    if cplx and sum(case["rs"]) % 4 == 2 and case["proxg"] != "box":
+        # a complex scalar in front of the forward operator (a global phase / gain): the
+        # normal operator carries |c|^2, not c^2
+        cfac = complex(0.6, 0.8) * float(10 ** rng.uniform(-0.3, 0.3))
+        A = cfac * A
     Am = dense(A)
     if not cplx:
         Am = Am.real
